@@ -293,6 +293,17 @@ theorem listTail_eq (lag : Nat) (d : List (Nat × Nat)) :
   simp only [List.map_map]
   rfl
 
+/-- list form of the tail for an arbitrary integer lag time: the sorted durations, each multiplied by the lag time -/
+theorem listTail_eq_int (lag : Int) (d : List (Nat × Nat)) :
+    listTail lag (dictI d) = .ok (((Events.histList d 1).map Int.ofNat).map (· * lag)) := by
+  unfold listTail
+  rw [npRepeat_dictI]
+  show Except.ok _ = _
+  rw [npSortInt_natCast]
+  unfold Events.histList
+  simp only [List.map_map, Nat.mul_one]
+  rfl
+
 /-! ### histogram form of the tail -/
 
 /-- density and edges of the histogram form as translated -/
